@@ -3,7 +3,7 @@ from pyvc.verify import Post, Case, Equiv, NativeFacts
 from contracts import common, C02, C12
 
 PROPERTY = 'C14'
-REF_MODULES = ['ref_t', 'ref_mut', 'h_path', 'ref_extra', 'ref_core']
+REF_MODULES = ['ref_t', 'ref_mut', 'h_path', 'ref_extra', 'ref_core', 'ref_registry', 'ref_match', 'ref_reduce', 'ref_auto']
 
 
 def config(cfg):
@@ -25,7 +25,6 @@ def contracts():
     cs.append(Equiv('core._extend_children', 'ref_t.extend_children_ref', config=_nosum('core._extend_children'),
                     args={'children': 'list', 'item': 'ref', 'get_handler': 'ref'},
                     loops={1: dict(vars=[('children', 'list'), ('item', 'ref'), ('get', 'ref')], ref_vars=[('children', 'list'), ('item', 'ref'), ('get', 'ref')])}))
-    cs.append(Equiv('core.TType.__stars__', 'ref_t.stars_ref', config=_nosum('core.TType.__stars__'), args={'self': 'inst:core.TType'}))
     cs += [c for c in C12.contracts() if c.label == 'mutation._apply_for_each']
     for meth, code in (('__star__', 'x'), ('__starstar__', 'X')):
         cs.append(Post('core.TType.%s' % meth, helpers='h_path', cases=[
@@ -42,7 +41,14 @@ def contracts():
         ("'a*'", "a segment that merely contains a star is a plain segment", lambda f: ops_of('a*.b')[1:] == ('P', 'a*', 'P', 'b')),
     ], func='core.Path.from_text'))
     from contracts import extra
-    cs += common.shared(extra, ['core.Path.from_text'])
+    cs += common.shared(extra, ['core.Path.from_text', 'core.TType.__stars__'])
+    # "Assign/Delete through wildcards act on every entry": the per-entry application (contracts shared with C11 / C12)
+    from contracts import C11
+    cs += common.shared(C12, ['mutation.Delete.glomit', 'mutation.Delete._del_one'])
+    cs += common.shared(C11, ['mutation.Assign.glomit'])
+    # what counts as a child is decided by the default 'keys' / 'iterate' / 'get' registrations and their order (shared with C13)
+    from contracts import C13
+    cs += common.shared(C13, ['core.TargetRegistry._register_default_types'])
     return cs
 
 
@@ -77,29 +83,34 @@ def bounded_descendants(tier, seed):
         yield 'string', {'s': 'abc', 't': {1, 2}}
         yield 'scalar', 5
         yield 'empty', {}
+        import collections
+        class Rec(dict):
+            """a dict subclass whose instances also carry a __dict__"""
+        rec = Rec(v={'n': 1}, w={'n': 2}); rec.note = 'attribute, not an entry'
+        yield 'dict-subclass', {'rows': [rec, Rec(v={'n': 3})]}
+        yield 'dict-subclass-root', rec
+        yield 'counter', collections.Counter('aab')
+        yield 'ordered', collections.OrderedDict([('z', {'n': 1}), ('a', {'n': 2})])
+        dd = collections.defaultdict(list); dd['k'].append({'n': 1})
+        yield 'defaultdict', dd
     def children(v):
-        reg = glom.core._DEFAULT_SCOPE[glom.core.TargetRegistry]
-        try:
-            keys = reg.get_handler('keys', v); get = reg.get_handler('get', v)
-        except glom.UnregisteredTarget:
-            try:
-                it = reg.get_handler('iterate', v)
-            except glom.UnregisteredTarget:
-                return []
-            try:
-                return list(it(v))
-            except Exception:
-                return []
-        out = []
-        try:
-            for k in keys(v):
+        """independent of the registry: mapping values (key order; a failing key is dropped), sequence / set items, attribute values of
+        plain objects (in __dict__ order); strings and scalars have no children"""
+        if isinstance(v, dict):
+            out = []
+            for k in list(v.keys()):
                 try:
-                    out.append(get(v, k))
+                    out.append(v[k])
                 except Exception:
                     pass
-        except Exception:
-            pass
-        return out
+            return out
+        if isinstance(v, (list, tuple, set, frozenset)):
+            return list(v)
+        if isinstance(v, (str, bytes, int, float, type(None))):
+            return []
+        if hasattr(v, '__dict__'):
+            return [getattr(v, k) for k in list(vars(v))]
+        return []
     def descendants(v):
         out, seen, queue = [v], {id(v)}, [v]
         while queue:
@@ -133,7 +144,7 @@ def bounded_descendants(tier, seed):
                 pass
             except Exception as e:
                 failures.append({'key': 'after-star', 'input': '%s / %r' % (name, p), 'observed': repr(e)[:150], 'expected': 'a list or PathAccessError', 'replay_code': None})
-    return {'name': 'wildcards vs breadth-first oracle (shared / cyclic / failing structures)', 'bound': '10 structures x 8 paths', 'cases': cases, 'failures': failures,
+    return {'name': 'wildcards vs breadth-first oracle (shared / cyclic / failing structures)', 'bound': '15 structures x 8 paths', 'cases': cases, 'failures': failures,
             'label': 'bounded'}
 
 
